@@ -410,3 +410,53 @@ OBLIGATIONS.append(Ob('fmt_int', ob_fmt_int, timeout=tier(250, 900), data='int n
 OBLIGATIONS.append(Ob('cfmt_epfs', ob_cfmt, ['0 <= j < %d' % len(SHORT), '0 <= n < 4'], timeout=tier(200, 600), data='-', selectors='EPFS %(x upper)5s|%(y)03d over short strings and numbers'))
 OBLIGATIONS.append(Ob('cfmt_with_options', ob_cfmt_with_options, ['0 <= j < %d' % len(SHORT), '0 <= n < 4'], timeout=tier(200, 600), data='-',
                       selectors='EPFS C-formats %05d / %6s / %.2f / %.2s combined with html_quote, upper, null= over short strings and numbers'))
+
+
+# ---------------------------------------------------------------- wave 3
+from crosshair.tracers import NoTracing      # noqa: E402
+
+SQL_ALPHA = ["'", '\x00', 'a', '\r', '\x1a']
+
+
+def ob_sql_pool(k1: int, k2: int, k3: int, k4: int, k5: int, n: int) -> bool:
+    """sql_quote over every string of length <= 5 built from quote / NUL / CR / Ctrl-Z / letter - untraced, so that implementation
+    techniques CrossHair cannot follow (regular expressions with look-around, translate tables) are decided too"""
+    s = ''.join(SQL_ALPHA[pick(k, 5)] for k in (k1, k2, k3, k4, k5)[:pick(n, 6)])
+    with NoTracing():
+        out = T_SQL(x=s)
+        if out != o_sql_quote(s) or DT_Var.sql_quote(s.encode('utf-8')) != o_sql_quote(s):
+            return False
+        return "'" not in out.replace("''", '')
+
+
+OBLIGATIONS.append(Ob('sql_quote_pool', ob_sql_pool, ['0 <= k%d < 5' % i for i in (1, 2, 3, 4, 5)] + ['0 <= n <= 5'], timeout=tier(250, 900), path_timeout=60,
+                      data='-', selectors="every string of length <= 5 over {', NUL, a, CR, Ctrl-Z} (3906 strings by path forking), str and bytes",
+                      stubs='render runs untraced once the string is fixed on the path'))
+
+NULL_FMTS = ['%s', '[%s]', 'collection-length', 'upper', 'multi-line', 'html-quote', 'url-quote', 'strip', '%r', 'sql-quote', '']
+T_NULL_FMTS = [cooked('<dtml-var x null="NIL" fmt="%s">' % f) for f in NULL_FMTS]
+T_NULL_FMTS_E = [cooked('%%(x null="NIL" fmt="%s")s' % f, String) for f in NULL_FMTS]
+T_NULL_MODS = cooked('<dtml-var x null="NIL" upper html_quote size=2 etc="!">|<dtml-var "x" null="NIL" thousands_commas>')
+
+
+def ob_null_before_fmt(f: int, kind: int, epfs: bool) -> bool:
+    """null= is decided BEFORE fmt=: a null value (None, or false but not 0) yields the null text whatever the format would have
+    made of it; 0 is formatted"""
+    fi = pick(f, len(NULL_FMTS))
+    kk = pick(kind, 6)
+    ep = bool(epfs)
+    with NoTracing():
+        v = [None, '', [], (), {}, 0][kk]
+        t = (T_NULL_FMTS_E if ep else T_NULL_FMTS)[fi]
+        try:
+            out = t(x=v)
+        except Exception:
+            return kk == 5            # only the non-null value may fail to format (e.g. 0 has no 'upper')
+        if kk == 5:
+            return out != 'NIL'
+        return out == 'NIL' and T_NULL_MODS(x=v) == 'NIL|NIL'
+
+
+OBLIGATIONS.append(Ob('null_before_fmt', ob_null_before_fmt, ['0 <= f < %d' % len(NULL_FMTS), '0 <= kind < 6'], timeout=tier(200, 600), path_timeout=60,
+                      data='-', selectors='null="NIL" with fmt in %r; value None / "" / [] / () / {} / 0; HTML and EPFS syntax; also with modifiers and size' % NULL_FMTS,
+                      stubs='render runs untraced once the selectors are fixed on the path'))
